@@ -43,6 +43,13 @@ pub fn snap<W: Wv>(id: u32, v: &W) {
     ev(id, K::Snap, t, h);
 }
 
+/// Snapshot of a `let mut` name: borrows it mutably and changes the payload in place.
+pub fn snapm<W: Wv>(id: u32, v: &mut W) {
+    let (t, h) = v.to_val().tag();
+    ev(id, K::Snap, t, h);
+    v.touch(id);
+}
+
 /// Handler written as a block logs its own evaluation.
 pub fn hexpr(id: u32) {
     ev(id, K::HExpr, tag::NONE, 0);
@@ -56,6 +63,8 @@ pub trait Wv: Sized + Send + 'static {
     fn to_val(&self) -> Val;
     /// payload token if there is one
     fn take(self) -> Option<Tok>;
+    /// mixes `id` into the payload in place
+    fn touch(&mut self, id: u32);
 }
 
 impl Wv for Result<Tok, Tok> {
@@ -77,6 +86,11 @@ impl Wv for Result<Tok, Tok> {
             Ok(t) | Err(t) => Some(t),
         }
     }
+    fn touch(&mut self, id: u32) {
+        match self {
+            Ok(t) | Err(t) => t.h = crate::tok::mixf(t.h, id),
+        }
+    }
 }
 
 impl Wv for Option<Tok> {
@@ -95,6 +109,11 @@ impl Wv for Option<Tok> {
     }
     fn take(self) -> Option<Tok> {
         self
+    }
+    fn touch(&mut self, id: u32) {
+        if let Some(t) = self {
+            t.h = crate::tok::mixf(t.h, id);
+        }
     }
 }
 
@@ -199,7 +218,7 @@ pub mod g {
 
 macro_rules! common_sync {
     () => {
-        pub use super::{cap, hexpr, snap, WExt};
+        pub use super::{cap, hexpr, snap, snapm, WExt};
         pub use crate::tok::Tok;
         pub fn init(id: u32) -> W {
             super::g::init::<W>(id)
@@ -320,7 +339,7 @@ pub mod o {
 /// Async callbacks over futures of `Result<Tok, Tok>`.
 pub mod ar {
     use super::*;
-    pub use super::{cap, hexpr, snap, WExt};
+    pub use super::{cap, hexpr, snap, snapm, WExt};
     pub use crate::tok::Tok;
     pub type W = Result<Tok, Tok>;
     pub type F = BoxFuture<'static, W>;
